@@ -141,7 +141,31 @@ theorem bpe_special_literal (pinned : Bool) (V : Vocab) (split : Str → List St
   rw [hfr]
   simp [bpeFrag]
 
+/-- **Every occurrence of a special token's literal is encoded as that token's id** (both families; any
+    list of special tokens with non-empty literals, any text): `Encode` is the concatenation of the
+    per-fragment encodings of `fragments specials s`, where (1) the fragments partition the text,
+    (2) NO remaining text fragment contains the literal of ANY special token, and (3) a special fragment
+    is encoded as exactly its id. -/
+theorem special_occurrences_consumed (specials : List Special) (hne : ∀ q ∈ specials, q.lit ≠ []) (s : Str) :
+    ((fragments specials s).map Frag.lit).flatten = s ∧
+    (∀ q ∈ specials, ∀ u, Frag.text u ∈ fragments specials s → ¬ Occurs q.lit u) ∧
+    (∀ pinned V split c, bpeEncode pinned V split specials c s
+        = addSpecials c ((fragments specials s).flatMap (bpeFrag pinned V split))) ∧
+    (∀ V c, spmEncode V specials c s = addSpecials c ((fragments specials s).flatMap (spmFrag V))) ∧
+    (∀ pinned V split q, bpeFrag pinned V split (Frag.special q) = [q.id]) ∧
+    (∀ V q, spmFrag V (Frag.special q) = [q.id]) :=
+  ⟨fragments_lit specials s, fun q hq => fragments_noOcc specials hne s q hq,
+   fun _ _ _ _ => rfl, fun _ _ => rfl, fun _ _ _ _ => rfl, fun _ _ => rfl⟩
+
 /-! ## SentencePiece -/
+
+/-- **SPM merge loop, with exactly the Go code's size-only staleness test: every part it leaves is a token
+    or a single rune of the input** (any vocabulary, any scores, any input).  Invariant: every queue entry
+    was created from two strings whose join is a token and whose byte sizes it records, parts only grow by
+    appending, UTF-8 length is strictly monotone — so an entry that passes the size test is not stale. -/
+theorem spm_merge_parts_tokens (V : Vocab) (rs : Str) :
+    ∀ p ∈ mergeAll (spmCfg V) rs, (V.tokId p.runes).isSome = true ∨ ∃ r, p.runes = [r] :=
+  spm_mergeAll_parts V rs
 
 theorem spmFrags_decode (V : Vocab) (hwf : V.Wf) (hbt : V.HasByteTokens) (frs : List Frag)
     (htext : ∀ t, Frag.text t ∈ frs → (32 ∈ t → (V.tokId [sepRune]).isSome = true) ∧
